@@ -26,7 +26,7 @@ def make_plan(what, tier, seed):
                            'timeout': int((est if pin is None else est / K * 1.5) * 3 + 60), 'twin': pin in (None, 0), 'bound': {'tokens': Lg, 'kinds': K}})
     for g, lexer in TXT_G:
         K = TXT_K[g]
-        Lt = (3 if quick else 4) + (2 if g == 'opttail' else 0)
+        Lt = (3 if quick else 4) + (1 if g == 'opttail' else 0)
         est = sum(K ** n for n in range(Lt + 1)) * 0.5
         pins = [None] if est <= budget else list(range(K))
         for pin in pins:
